@@ -414,7 +414,8 @@ class _WFile:
     def write(self, data):
         self.hooks.gate("write")
         n = self.f.write(data)
-        self.f.flush()          # the model makes the data visible at `write`
+        # (no flush here: whether the data have left Python's buffer when a later step runs is the code's business —
+        #  a rename placed before the file is closed must be seen to publish an empty file)
         self.hooks.after("write")
         return n
 
@@ -756,7 +757,9 @@ def findings_key(ctx, bench):
     F.wipe_profiles()
     # ... and two servers that DO name different FIs never share one (whatever characters ORG/FID contain)
     pairs = [(("msdw.com", "1235"), ("msdw.com", "14137")), (("a.b", "c"), ("a", "b.c")), (("X", "1.0"), ("X", "1.5")),
-             (("bank-1", "2"), ("bank", "1-2")), (("Org", "7"), ("org", "7"))]
+             (("bank-1", "2"), ("bank", "1-2")), (("Org", "7"), ("org", "7")),
+             (("B&T Bank", "1"), ("B+T Bank", "1")), (("Bank One", "1"), ("Bank_One", "1")), (("Caf\u00e9", "1"), ("Cafe", "1")),
+             (("a b", "1"), ("a  b", "1")), (("x", "1 "), ("x", "1"))]
     rng = ctx.rng
     alphabet = "ab.-_ 1"
     for _ in range(ctx.budget(6)):
